@@ -1443,6 +1443,11 @@ def m_type(eng, args, kwargs, node, frame):
 
 @model("super")
 def m_super(eng, args, kwargs, node, frame):
+    cur = getattr(eng.vf, "current", None)
+    cls = cur.options.get("super_obj") if cur is not None else None
+    if cls and not args:
+        # contract option super_obj: super() is an abstract object whose methods carry contracts (the parent class's view)
+        return eng.make(f"obj:{cls}", "super")
     return VOpaque(tag="super")
 
 
